@@ -20,6 +20,7 @@ fn main()
 		Some("lexobs") => lexdiff::run_obs(),
 		Some("export-eval") => ast_eval::run_export(),
 		Some("mut-eval") => ast_eval::run_mut(),
+		Some("syntax-eval") => ast_eval::run_syntax(),
 		_ =>
 		{
 			eprintln!("usage: pv_replay <error-codes|value-types|lexdiff>");
